@@ -323,10 +323,12 @@ def lint(root, S, known_external):
             # (the converse does not hold by design: several candidate getters all carry get-property, one is chosen)
 
 
-def accessor_world(rng, S, ET):
+def accessor_world(rng, S, ET, dashed=False):
     """a class with properties and candidate accessor methods, some carrying (set-property)/(get-property) annotations that name
     another property, some properties carrying explicit (setter)/(getter)"""
     props = rng.sample(['title', 'label', 'visible', 'count', 'is-active'], rng.randint(2, 4))
+    if dashed and 'is-active' not in props:
+        props.append('is-active')
     syms = [S.FS(S.CSYMBOL_TYPE_TYPEDEF, 'FooAcc', base_type=S.FT(S.CTYPE_STRUCT, '_FooAcc'), line=10),
             S.FS(S.CSYMBOL_TYPE_STRUCT, '_FooAcc', base_type=S.FT(S.CTYPE_STRUCT, '_FooAcc', child_list=[
                 S.FS(S.CSYMBOL_TYPE_MEMBER, 'parent', base_type=S.td('GObject'), line=11)]), line=11),
@@ -336,13 +338,14 @@ def accessor_world(rng, S, ET):
     for p in props:
         u = p.replace('-', '_')
         for mname, setter in (('set_' + u, True), ('get_' + u, False), ('is_' + u, False), (u, False)):
-            if rng.random() < 0.55:
+            forced = dashed and p == 'is-active' and mname in ('set_is_active', 'get_is_active')
+            if rng.random() < 0.55 or forced:
                 ps = [S.param('self', S.ptr(S.td('FooAcc')))] + ([S.param('v', S.td('gboolean' if p in ('visible', 'is-active') else 'gint'))] if setter else [])
                 syms.append(S.func('foo_acc_' + mname, S.VOID if setter else S.td('gboolean' if p in ('visible', 'is-active') else 'gint'), ps, line=line))
                 line += 1
-                if rng.random() < 0.4:
-                    other = p if rng.random() < 0.5 else rng.choice(props)
-                    if rng.random() < 0.5:
+                if rng.random() < 0.4 or forced:
+                    other = p if (rng.random() < 0.5 or forced) else rng.choice(props)
+                    if rng.random() < 0.5 or forced:
                         other = other.replace('-', '_')      # the C spelling of a dashed property name: not the name of a property
                     comments.append(('/**\n * foo_acc_%s: (%s %s)\n * @self: it\n%s */' % (mname, 'set-property' if setter else 'get-property', other,
                                                                                           ' * @v: value\n' if setter else ''), '/src/foo.c', cline))
@@ -529,7 +532,7 @@ def main(tier, seed):
         extra = []
     for b in range(15 if tier == 'quick' else 200):
         try:
-            extra.append(('accessor world #%d' % b, accessor_world(rng, S, ET), []))
+            extra.append(('accessor world #%d' % b, accessor_world(rng, S, ET, dashed=(b % 3 == 0)), []))
         except (Exception, SystemExit) as e:      # noqa
             ck.failing_input('the scanner fails on a class with accessor methods: %r' % (e,), dict(world=b))
     for b in range(15 if tier == 'quick' else 200):
